@@ -67,7 +67,20 @@ static int64_t ext_va (int64_t n, ...) {
   return s;
 }
 
+/* which function is this?  index of the function whose public address (item->addr recorded at load
+   time) fn is, -1 if it is nobody's public address: a function has ONE address, whoever asks and whenever */
+static void *p_addr0_fwd (int i);
+static int p_nfuncs_fwd (void);
+static int64_t ext_id (void *fn) {
+  int64_t r = -1;
+  for (int i = 0; i < p_nfuncs_fwd (); i++)
+    if (p_addr0_fwd (i) == fn) r = i;
+  log_val (2000003 + r);
+  return r;
+}
+
 static void load_externals (void) {
+  MIR_load_external (ctx, "ext_id", ext_id);
   MIR_load_external (ctx, "ext_log", ext_log);
   MIR_load_external (ctx, "ext_cb", ext_cb);
   MIR_load_external (ctx, "ext_cbd", ext_cbd);
@@ -205,6 +218,9 @@ static int p_nmods;
 static MIR_item_t p_funcs[MAXFN];
 static void *p_addr0[MAXFN]; /* item->addr right after MIR_load_module */
 static int p_nfuncs;
+
+static void *p_addr0_fwd (int i) { return p_addr0[i]; }
+static int p_nfuncs_fwd (void) { return p_nfuncs; }
 
 static char *read_file (const char *path) {
   FILE *f = fopen (path, "rb");
